@@ -219,3 +219,43 @@ func VerifC03XQuote(form int, arg int, where int, pretty int) {
 }
 
 var _ = big.NewInt
+
+var zzC03XNamed = []rune{' ', '\n', '\t', '\f', '\r', 0x7f, '\b'}
+
+// VerifC03XCharName: the name the printer writes for a character (#\Space #\Newline #\Tab
+// #\Page #\Return #\Rubout #\Backspace, #\u00XX for the other control characters: sel 7 = a
+// symbolic control character) is read back as that character in every letter case (character
+// names are case-insensitive): variant 0 as printed, 1 upper case, 2 lower case, 3 the case
+// of every letter symbolic.
+func VerifC03XCharName(sel int, variant int) {
+	var c Character
+	if sel < len(zzC03XNamed) {
+		c = Character(zzC03XNamed[sel])
+	} else {
+		r := vrt.Rune("r")
+		vrt.Assume(0 < r && r < 0x20)
+		c = Character(r)
+	}
+	text := c.Readably(nil, zzC03Printer(true))
+	if 3 < len(text) {
+		for i := 2; i < len(text); i++ {
+			ch := text[i]
+			letter := ('a' <= ch && ch <= 'z') || ('A' <= ch && ch <= 'Z')
+			if !letter {
+				continue
+			}
+			switch variant {
+			case 1:
+				text[i] = ch &^ 0x20
+			case 2:
+				text[i] = ch | 0x20
+			case 3:
+				m := vrt.Byte("case" + string(rune('a'+i)))
+				text[i] = (ch &^ 0x20) | (m & 0x20)
+			}
+		}
+	}
+	out := zzC03Read(text)
+	vrt.Reach("read")
+	zzC03XCheck(out, c, "character name")
+}
